@@ -15,11 +15,11 @@ def virt (s : CState) : Active :=
 
 theorem ainv_perm (a b : Active) (hA : AInv a) (hp : (docIds b).Perm (docIds a)) (hdp : b.dp = a.dp)
     (hbl : b.blocks = a.blocks) (ht : b.docsTotal = a.docsTotal) (h1 : 1 ≤ b.ids.length) : AInv b := by
-  refine ⟨?_, ?_, ?_, ?_, h1⟩
+  refine ⟨⟨?_, ?_, ?_, h1⟩, ?_⟩
   · intro id; rw [hdp, hp.mem_iff]; exact hA.dom id
   · intro id p hq; rw [hbl]; rw [hdp] at hq; exact hA.blk id p hq
-  · exact hp.nodup_iff.mpr hA.nodup
   · rw [ht, hA.total, hp.length_eq]
+  · exact hp.nodup_iff.mpr hA.nodup
 
 theorem perm_eraseIdx {α} (l : List α) (k : Nat) (c : α) (h : l[k]? = some c) : l.Perm (c :: l.eraseIdx k) := by
   induction l generalizing k with
